@@ -168,7 +168,13 @@ fn spec() -> BoxedStrategy<FnSpec> {
                     }
                 }
             }
-            strip(&mut body);
+            if kind == Kind::BoxPinTail {
+                strip(&mut body);
+            } else if !body.iter().any(|s| matches!(s, Stmt::Call(_))) {
+                // the future returned by an async factory runs after the factory's own call (and
+                // span) ended: traced calls made in it belong to whoever polls it
+                body.insert(0, Stmt::Call(name.len() as u16));
+            }
             if ret == Ret::Unit {
                 ret = Ret::I64;
             }
